@@ -169,7 +169,10 @@ def delivery_oracle(result, chan_pair, which):
         op, out = s["op"], s["out"]
         if op["op"] in ("Subscribe", "Wait") and out["k"] == "Sub":
             subs[out["sid"]] = {"chans": set(op["chans"]), "f": op["f"], "oneshot": op["op"] == "Wait",
-                                "active": True, "got": [], "sure": [], "poss": set(), "t0": i}
+                                "active": True, "got": [], "sure": [], "poss": set(), "t0": i,
+                                # a stream with a queue of length ZERO takes an event only while its consumer is
+                                # parked in __anext__: everything else overflows (lost for it, with a warning)
+                                "zero": op["op"] == "Subscribe" and op.get("cap") == 0, "parked": False, "lost": set()}
 
         def yielded(sid, e, i=i):
             sb = subs.get(sid)
@@ -195,6 +198,10 @@ def delivery_oracle(result, chan_pair, which):
                 bad.append(("C10:stamp", f"step {i}: event {eid} has no float time", i))
             if eid in sb["got"]:
                 bad.append(("C10:duplicate", f"step {i}: subscriber {sid} received event {eid} twice", i))
+            if eid in sb["lost"]:
+                bad.append(("C10:overflow-delivered", f"step {i}: subscriber {sid} (queue of length 0, not waiting when "
+                            f"event {eid} was dispatched) received that event although it overflowed its queue", i))
+            sb["parked"] = False
             if sb["got"] and order.index(sb["got"][-1]) > order.index(eid):
                 bad.append(("C10:order", f"step {i}: subscriber {sid} received event {eid} after {sb['got'][-1]}", i))
             sb["got"].append(eid)
@@ -214,12 +221,28 @@ def delivery_oracle(result, chan_pair, which):
                     bad.append(("C10:warnings", f"step {i}: {r[1]} queue-full warnings for {len(listeners)} subscribers", i))
                 a = chan_pair.get(ch, (0, 0))
                 e = {"id": eid, "cls": cls, "src": a[0], "topic": a[1]}
+                must_warn = 0
                 for sb in listeners:
                     sb["poss"].add(eid)
                     if (r[1] == 0 or sb["oneshot"]) and flt_pass(sb["f"], e):
                         sb["sure"].append(eid)
+                    if sb["zero"]:
+                        if sb["parked"]:
+                            sb["parked"] = False          # handed over; nobody is waiting any more during this burst
+                            sb.setdefault("handed", []).append(e)
+                        else:
+                            sb["lost"].add(eid)
+                            must_warn += 1
+                if r[1] < must_warn:
+                    bad.append(("C10:warnings", f"step {i}: {r[1]} queue-full warnings although {must_warn} subscribers "
+                                f"with a queue of length 0 were not waiting", i))
             for sid, e in out["done"]:
                 yielded(sid, e)
+            for sb in subs.values():
+                # a handed-over event that fails the filter is consumed silently and the consumer parks again
+                for e in sb.pop("handed", []):
+                    if sb["active"] and not flt_pass(sb["f"], e):
+                        sb["parked"] = True
         if op["op"] == "Recv":
             if out["k"] == "Yield":
                 yielded(op["sid"], out["e"])
@@ -227,6 +250,7 @@ def delivery_oracle(result, chan_pair, which):
                     bad.append(("C10:duplicate", f"step {i}: one __anext__ produced two events", i))
             elif out["k"] == "Blocked":
                 sb = subs[op["sid"]]
+                sb["parked"] = True
                 missing = [x for x in sb["sure"] if x not in sb["got"]]
                 if missing:
                     bad.append(("C10:lost-event", f"step {i}: subscriber {op['sid']} blocks although events {missing[:5]} "
@@ -234,6 +258,7 @@ def delivery_oracle(result, chan_pair, which):
         if op["op"] == "Leave" and out["k"] == "Left":
             if op["sid"] in subs:
                 subs[op["sid"]]["active"] = False
+                subs[op["sid"]]["parked"] = False
             for sid, e in out.get("stray", []):
                 yielded(sid, e)
     # wait_event returns the FIRST passing event dispatched after it began; and it returns as soon as
